@@ -385,7 +385,6 @@ def makeField(domain, arr):
         return MultiField.from_raw(domain, arr)
     if np.isscalar(arr):
         domain = makeDomain(domain)
-        arr = np.broadcast_to(arr, domain.shape)
     return Field.from_raw(domain, arr)
 
 
